@@ -43,6 +43,10 @@ def contents(rng, ext):
     out.append(("big-utf8", ("#TITLE:" + "猫" * 6000 + ";\n" + base_text(ext, "t")).encode("utf-8")))
     out.append(("big-cp932", ("#TITLE:" + "ねこ、" * 3000 + ";\n" + base_text(ext, "t")).encode("cp932")))
     out.append(("big-cp949", ("#TITLE:" + "고양이" * 3000 + ";\n" + base_text(ext, "t")).encode("cp949")))
+    # keys that need escaping; line-boundary characters other than CR / LF inside values and note data
+    out.append(("meta-keys", ("#MOD\\:SPEED:1.5x;\n#A\\;B:v;\n#C\\/\\/D:w;\n" + base_text(ext, "t")).encode("ascii")))
+    out.append(("ff-notes", base_text(ext, "t\x0bu").replace("0000\n0000", "0000\x0c0000\x1c").encode("ascii")))
+    out.append(("ls-notes", base_text(ext, "t\u2028u\x85v").replace("0000\n0000", "0000\u20280000\u2029").encode("utf-8")))
     out.append(("invalid", b"#TITLE:\x81 ;\n\x90\n"))
     out.append(("invalid2", b"\x81 \x90 #TITLE:x;"))
     return out
@@ -56,7 +60,7 @@ def gen_edits(rng, n):
     for _ in range(n):
         r = rng.random()
         if r < 0.45:
-            ops.append(["set", rng.choice(["TITLE", "ARTIST", "SUBTITLE", "XCUSTOM", "CREDIT"]), rng.choice(EDIT_VALUES)])
+            ops.append(["set", rng.choice(["TITLE", "ARTIST", "SUBTITLE", "XCUSTOM", "CREDIT", "LABEL;A", "MOD:X", "A//B", "B\\C"]), rng.choice(EDIT_VALUES)])
         elif r < 0.55:
             ops.append(["del", rng.choice(["TITLE", "ARTIST", "XCUSTOM"]), ""])
         elif r < 0.66:
